@@ -1,6 +1,23 @@
 """C08 -- the kdq-tree partitions space consistently and conserves counts."""
 from .common import A_COMMON
-TARGETS = []
+N = "menelaus.partitioners.KDQTreePartitioner:KDQTreeNode"
+P = "menelaus.partitioners.KDQTreePartitioner:KDQTreePartitioner"
+TARGETS = [("fn", N + ".build"), ("fn", N + ".fill"), ("fn", N + ".reset"), ("fn", P + ".fill"), ("fn", P + ".reset"),
+           ("fn", P + "._distn_from_counts"),
+           ("lemma", "mcount_range"), ("lemma", "mcount_complement"), ("lemma", "mcount_pos"),
+           ("lemma", "corrected_sum"), ("lemma", "vsum_nonneg"), ("lemma", "kl_lower_bound"), ("lemma", "kl_identity")]
 LEVEL = "exploration"
-LEVEL_TEXT = ('Bounded: KDQTreePartitioner structural invariants and count conservation on point sets over small integer grids, duplicated rows and continuous data, 1-3 dimensions, count_ubound 1-5, fill sequences under three ids with and without reset, distributions, KL, plotly frame incl. KSS. Claimed as exploration.')
-ASSUMPTIONS = A_COMMON + []
+LEVEL_TEXT = ('Bounded: KDQTreePartitioner structural invariants and count conservation on point sets over small integer grids, duplicated rows and continuous data, 1-3 dimensions, count_ubound 1-5, fill sequences under three ids with and without reset, distributions, KL, plotly frame incl. KSS. '
+              'Deductive (counted separately): the recursive KDQTreeNode.build / fill / reset and KDQTreePartitioner.fill / reset are proved against contracts with the object-invariant methodology for trees '
+              '(every node: leaf or internal with both children; for every tree id a node has a count iff both children do and then it is the sum of theirs): build returns a node whose build count is the number of rows, '
+              'splits exactly the axis depth mod width at min + range/2, never splits count_ubound rows or fewer, and gives both children at least one row (mask-count lemmas: the <= / > masks are complementary); '
+              'fill adds the number of rows to the count of the id at every node it passes (or restarts it when reset / absent), leaves every other id alone and re-establishes the sum invariant; reset(0) likewise. '
+              '_distn_from_counts is the +0.5-corrected distribution summing to one; Gibbs inequality (kl_sum >= sum p - sum q, = 0 for p = q) is proved for the recursive spec of the divergence. '
+              'Not reached deductively: which leaf a point lands in (cell membership), the leaves list, KDQTreePartitioner.build (the cut-point comprehension), leaf_counts / kl_distance glue (scipy.stats.entropy), the plotly frame. Claimed as exploration.')
+ASSUMPTIONS = A_COMMON + [
+    "A-TREE-INV: in the pre-state of every call every tree node satisfies the class invariant (assumed for the node passed in and its children; each function under contract re-establishes it for the node it is given, recursive calls for their subtrees)",
+    "A-TREE-WIDTH: split axes of an existing tree are valid columns of the data being filled (the tree was built for data of this width)",
+    "A-LIST: lazily materialised tree nodes are pairwise distinct objects (subtrees of different children are disjoint, the tree is acyclic); recursion is used through its own contract (partial correctness, A-TERM)",
+    "A-MAT2 (see C20); boolean-mask row selection yields a matrix with mcount(mask) rows whose cells are not tracked; np.min / np.max / np.ptp bound every element and are attained; np.unique(data).size is some count >= 1",
+    "scipy.stats.entropy(p, q) is not linked to kl_sum deductively (bounded tier compares kl_distance with an independent computation)",
+]
